@@ -149,7 +149,11 @@ func (c10) Gen(r *sim.Rand, tier string, run uint64) *sim.Scenario {
 		}
 		if s.w {
 			client := sim.PickInt(r, 0, 0, 0, 1, 1, 2, 3) // raw, bufio, io.Copy into the library's writer, source aliasing the image
-			ops = append(ops, sim.Op{K: "write", N: []int64{int64(id), int64(client)}, B: r.Bytes(l)})
+			if r.Chance(1, 8) {
+				client = 4 // whatever else the writer offers: io.WriterAt, io.StringWriter, io.ByteWriter
+			}
+			waux := int64(sim.PickInt(r, 0, 1, -1, -17, rem-l, rem-l+1, rem, -rem, r.Intn(rem+2)))
+			ops = append(ops, sim.Op{K: "write", N: []int64{int64(id), int64(client), waux, int64(r.Intn(3))}, B: r.Bytes(l)})
 		} else {
 			// clients 0-5 consume through Read; 6-9 use the optional interfaces the returned
 			// reader may offer (io.Seeker, io.ReaderAt, io.ByteScanner, io.WriterTo into a sink
@@ -369,6 +373,102 @@ func (c checkedWriter) Write(p []byte) (int, error) {
 		return n, io.ErrShortWrite
 	}
 	return n, err
+}
+
+// optionalWriterOp: what the writer offers besides Write. Offsets of io.WriterAt are relative
+// to the window; a store outside it, before its first byte included, must be refused whole.
+func (w *c10world) optionalWriterOp(s *c10stream, p []byte, off int64, which int) {
+	st, env := w.st, w.env
+	winLen := int64(s.end - s.start)
+	switch x := s.w.(type) {
+	case io.WriterAt:
+		if which != 0 {
+			break
+		}
+		var n int
+		var err error
+		if pn, pv := sim.RecoverLib(func() { n, err = x.WriteAt(p, off) }); pn {
+			w.fail("write_panic", "WriteAt(%d bytes, %d) panicked: %s", len(p), off, sim.PanicString(pv))
+			return
+		}
+		st.SimOps++
+		env.ObsInt(n)
+		env.ObsBool(err != nil)
+		st.Probe("writer_writeat")
+		fits := off >= 0 && off+int64(len(p)) <= winLen
+		switch {
+		case fits && (err != nil || n != len(p)):
+			w.fail("write_spurious_error", "WriteAt(%d bytes, offset %d) lies inside the window of %d bytes but returned (%d, %v)", len(p), off, winLen, n, err)
+		case !fits && err == nil && len(p) > 0:
+			w.fail("write_beyond_window", "WriteAt(%d bytes, offset %d) on a window of %d bytes returned (%d, nil): it reaches outside the window", len(p), off, winLen, n)
+		case !fits && n != 0:
+			w.fail("silent_partial_write", "WriteAt(%d bytes, offset %d) on a window of %d bytes was refused (%v) but reports %d bytes stored", len(p), off, winLen, err, n)
+		}
+		if fits && err == nil {
+			copy(w.model[s.start+int(off):], p)
+		}
+		w.compareImage(fmt.Sprintf("WriteAt(%d bytes, offset %d) -> (%d, %v)", len(p), off, n, err))
+		st.MarkNontrivial()
+		return
+	}
+	// the sequential extras behave like Write of the same bytes
+	cw := checkedWriter{w, s}
+	room := s.end - s.pos
+	switch x := s.w.(type) {
+	case io.StringWriter:
+		if which == 1 {
+			st.Probe("writer_writestring")
+			var n int
+			var err error
+			if pn, pv := sim.RecoverLib(func() { n, err = x.WriteString(string(p)) }); pn {
+				w.fail("write_panic", "WriteString panicked: %s", sim.PanicString(pv))
+				return
+			}
+			w.afterSequentialWrite(s, p, n, err, room, "WriteString")
+			return
+		}
+	}
+	if bw, ok := s.w.(io.ByteWriter); ok && which == 2 && len(p) > 0 {
+		st.Probe("writer_writebyte")
+		var err error
+		if pn, pv := sim.RecoverLib(func() { err = bw.WriteByte(p[0]) }); pn {
+			w.fail("write_panic", "WriteByte panicked: %s", sim.PanicString(pv))
+			return
+		}
+		n := 1
+		if err != nil {
+			n = 0
+		}
+		w.afterSequentialWrite(s, p[:1], n, err, room, "WriteByte")
+		return
+	}
+	_, _ = cw.Write(p)
+}
+
+// afterSequentialWrite applies the Write oracle to a call that came in through another
+// sequential method of the writer.
+func (w *c10world) afterSequentialWrite(s *c10stream, p []byte, n int, err error, room int, what string) {
+	w.st.SimOps++
+	w.env.ObsInt(n)
+	w.env.ObsBool(err != nil)
+	fits := len(p) <= room
+	switch {
+	case n < 0 || n > len(p):
+		w.fail("write_count", "%s(%d bytes) returned n=%d", what, len(p), n)
+		return
+	case err == nil && n != len(p):
+		w.fail("silent_partial_write", "%s(%d bytes) with %d bytes of room returned (%d, nil)", what, len(p), room, n)
+	case err == nil && !fits:
+		w.fail("write_beyond_window", "%s(%d bytes) with only %d bytes of room returned (%d, nil)", what, len(p), room, n)
+	case err != nil && fits:
+		w.fail("write_spurious_error", "%s(%d bytes) fits (room %d) but returned (%d, %v)", what, len(p), room, n, err)
+	}
+	if n > room {
+		n = room
+	}
+	copy(w.model[s.pos:s.pos+n], p[:n])
+	s.pos += n
+	w.compareImage(fmt.Sprintf("%s(%d bytes) -> (%d, %v)", what, len(p), n, err))
 }
 
 // optionalReaderOp drives one of the optional interfaces the library's reader may implement
@@ -956,6 +1056,10 @@ func (c c10) Exec(sc *sim.Scenario, env *sim.Env) (viol *sim.Violation) {
 				continue
 			}
 			cw := checkedWriter{w, s}
+			if op.Arg(1) == 4 && !s.low {
+				w.optionalWriterOp(s, []byte(op.B), op.Arg(2), int(op.Arg(3)))
+				continue
+			}
 			if op.Arg(1) == 3 && !s.low && len(op.B) > 1 {
 				// moving a block up inside the image: the source is a slice of ROM.Contents that
 				// overlaps the destination from below
